@@ -102,6 +102,26 @@ Fixpoint string_bytes_go (fuel : nat) (html : bool) (s : bytes) : bytes :=
 Definition string_bytes (html : bool) (s : bytes) : bytes :=
   dquote :: string_bytes_go (S (length s)) html s ++ [dquote].
 
+(* what a reader gets back from the text stringBytes writes for s: every byte that does not start a
+   well-formed UTF-8 sequence (utf8.DecodeRune reports RuneError, size 1) has become U+FFFD.
+   Also tagAsRead (natural_language_values.go): NaturalLanguageValues.MarshalJSON compares language tags
+   in this form. *)
+Fixpoint sanitize_go (fuel : nat) (s : bytes) : bytes :=
+  match fuel with
+  | O => []
+  | S f =>
+      match s with
+      | [] => []
+      | b :: r =>
+          if (byteN b <? 128)%N then b :: sanitize_go f r
+          else match utf8_size s with
+               | None => [xef; xbf; xbd] ++ sanitize_go f r
+               | Some sz => firstn sz s ++ sanitize_go f (skipn sz s)
+               end
+      end
+  end.
+Definition sanitize (s : bytes) : bytes := sanitize_go (S (length s)) s.
+
 
 (* escapeQuote as repaired: strings.Split(s, backslash-quote), every part through the complete escaper
    (without its surrounding quotes), parts re-joined with backslash-quote *)
